@@ -164,6 +164,13 @@ def confirm(prop, h, ov, tdir, logdir, r):
         except Exception as e:  # noqa
             rep, info, vals = None, "playback error: %r" % e, None
     r["replay"] = replay_path
+    if rep is None and h.replay == "playback" and h.module == "yaml::encoding":
+        # Kani's trace-producing run is far heavier than the verdict run for the decoder harnesses and may not finish:
+        # fall back to the statement of C07 itself through the real crates (every scalar value, every encoding)
+        if not os.path.exists(replay_path):
+            os.makedirs(os.path.dirname(replay_path), exist_ok=True)
+            open(replay_path, "w").write("// solver counterexample of harness %s (%s)\n// failed checks: %s\n" % (h.name, h.desc, r["detail"]))
+        rep, info = native.confirm_integration(h, ov, logdir, replay_path, "encoding_native.rs", release=True)
     if h.replay == "none":
         # stubs of std functions: Kani's playback cannot apply them; the solver trace is the replay artefact
         r["verdict"] = "violated"
